@@ -39,6 +39,7 @@ func init() {
 			{ID: "C03.R17", Floor: 4, Run: filterCtorsVerbatim, Text: "logic-filter constructors store their operands unchanged (= C04.R6)"},
 			{ID: "C03.R18", Floor: 1, Run: noNarrowParamSums, Text: "sums with caller-supplied values are at least 64 bits wide in Query methods: a uint32 sum of the current row and the step wraps, so Step(k) lands on an entity where k calls of Next would have exhausted the query"},
 			{ID: "C03.R19", Floor: 10, Run: freshRelationFilterPerCall, Text: "generic FilterN.Filter hands out a relation filter of its own for a per-call target (= C18.R22): an open query keeps the target it was built with"},
+			{ID: "C03.R20", Floor: 1, Run: recycleAfterTableEvents, Text: "handles are recycled only after the removal events of their table were delivered (= C02.R21): a query opened inside a removal event yields no dead entity"},
 		},
 	})
 }
